@@ -30,15 +30,33 @@ def run(ck):
 
 
 # ---------------------------------------------------------------------------------------
-def is_tag_tuple(adt):
-    return adt.startswith("(u64, ") and "BlockCursor<" in adt
+_TAG_ADTS = {}
+
+
+def is_tag_tuple(adt, F=None):
+    """the (offset tag, cached index block) pair: the tuple (u64, BlockCursor<Block>) or a local struct
+    with exactly those two field types"""
+    if adt.startswith("(u64, ") and "BlockCursor<" in adt:
+        return True
+    return adt in _TAG_ADTS
+
+
+def _register_tag_adts(F):
+    _TAG_ADTS.clear()
+    for p, a in F.adts.items():
+        if a["kind"] == "Struct" and a["variants"]:
+            tys = sorted(f["ty"] for f in a["variants"][0]["fields"])
+            if len(tys) == 2 and "u64" in tys and any("BlockCursor<" in t for t in tys):
+                _TAG_ADTS[p] = {f["name"]: (0 if f["ty"] == "u64" else 1) for f in a["variants"][0]["fields"]}
 
 
 def tuple_elem(e):
-    """e denotes element .0/.1 of a (u64, BlockCursor<Block>) tuple: returns (base_ident, idx)"""
+    """e denotes the tag (0) / cursor (1) element of a tag pair: returns (base_ident, idx)"""
     e = e.strip()
     if e.k == "field" and is_tag_tuple(e.x.get("adt", "")):
-        return e.a[0].ident(), e.x["idx"]
+        adt = e.x.get("adt", "")
+        idx = _TAG_ADTS[adt].get(e.x["name"], e.x["idx"]) if adt in _TAG_ADTS else e.x["idx"]
+        return e.a[0].ident(), idx
     return None
 
 
@@ -59,6 +77,7 @@ def decoded_offset(e):
 
 def r1_tag(ck, F):
     R = "C03-R1"
+    _register_tag_adts(F)
     nstores = 0
     ncons = 0
     for b in F.user_bodies():
@@ -79,9 +98,12 @@ def r1_tag(ck, F):
                     if te is not None and ty.startswith("&mut") and te[1] == 0:
                         c = callee_of(st)
                         ck.ob(R, f"opaque-tag-write/{b.path}", False, f"the offset tag of a cached index block is written through a call ({callee_name(c)}) — its value and ordering relative to the block store cannot be established", b, site)
-            if site.i is not None and st["s"] == "assign" and st["rv"]["rv"] == "agg" and st["rv"]["ak"] == "tuple" and is_tag_tuple(st["pl"]["ty"]):
+            if site.i is not None and st["s"] == "assign" and st["rv"]["rv"] == "agg" and ((st["rv"]["ak"] == "tuple" and is_tag_tuple(st["pl"]["ty"])) or (st["rv"]["ak"] == "adt" and st["rv"].get("adt") in _TAG_ADTS)):
                 ncons += 1
-                tv = b.expr_of_operand(st["rv"]["ops"][0], site)
+                ti = 0
+                if st["rv"]["ak"] == "adt":
+                    ti = [i for i, fn_ in enumerate(st["rv"]["fields"]) if _TAG_ADTS[st["rv"]["adt"]].get(fn_) == 0][0]
+                tv = b.expr_of_operand(st["rv"]["ops"][ti], site)
                 ck.ob(R, f"construction/{b.path}", True, f"(tag, cursor) constructed with tag = {tv.show()[:120]} (construction tags are not armed: a tag of another level can never match a jump target)", b, site, nontrivial=False)
         if not cur and not tag:
             continue
@@ -136,18 +158,7 @@ def _postdominates_all_exits(b, t, c):
 
 # ---------------------------------------------------------------------------------------
 def return_alts(b):
-    e = b.expr_at_return()
-    out = []
-
-    def flat(x):
-        if x.k == "phi":
-            for c in x.a:
-                flat(c)
-        else:
-            out.append(x)
-
-    flat(e)
-    return out
+    return flat_alts(b.expr_at_return())
 
 
 def is_err_path(e):
